@@ -72,6 +72,12 @@ func c03Prop(c *sim.Case) {
 	w.IdP.IDTTL = time.Duration(60+sim.Pick(c, "idttl", 7200)) * time.Second
 
 	b := w.NewBrowser("a")
+	if sim.Weighted(c, "forwarding-headers", 2, 1) == 1 {
+		// what a hop in front of the proxy claims about the original request is not what was requested
+		b.Headers = map[string]string{"x-forwarded-proto": sim.PickStr(c, "xfp", "http", "https", "wss"), "x-forwarded-host": "evil.test", "x-forwarded-port": "8080",
+			"forwarded": "for=203.0.113.7;proto=http;host=evil.test", "x-forwarded-prefix": "/prefix", "x-original-url": "/elsewhere?x=1"}
+		c.Class("request:forwarding-headers")
+	}
 	if sim.Bool(c, "other-cookies") {
 		b.Extra = []string{"theme=dark", "k=a=b"}
 		b.After = []string{"_ga=GA1.2.3"}
@@ -217,6 +223,9 @@ func hdrVal(preamble, v string) string {
 func TestC03(t *testing.T) {
 	r := sim.NewRun(t, "C03")
 	defer r.Finish()
+	if r.Shard%2 == 1 {
+		sim.EnableDebugLogging() // odd shards run with every logging scope at debug level: logging must not change what is done
+	}
 	r.Rule = "compliant IdP shape (expires_in absent/small/large, refresh token or not, string/array aud, token_type capitalisation, extra members, ES256/RS256/PS256 key among 1-3 published keys) x filter config (forwarding, logout, discovery, cookie prefix, scopes, store, callback host form, trigger rules, via server.Check or Process) x requested path?query with reserved characters, then 0-10 further requests with clock advances inside every token lifetime. Non-trivial = flow ran to the end and an optional member was omitted/non-default or the URL has a reserved character; distinct = distinct (shape, config, URL class) tuple."
 	r.Assumptions = []string{
 		"compliance dimensions are those named in the statement; tokens without kid, non-integer expires_in and a missing token_type are not generated",
